@@ -9,7 +9,9 @@ import (
 	"encoding/binary"
 	"encoding/json"
 	"fmt"
+	"os"
 	"sort"
+	"sync"
 	"time"
 
 	"github.com/btcsuite/btcd/btcutil"
@@ -112,13 +114,24 @@ func c16SeedBytes(id int) []byte {
 // deriver derives wallet addresses of a seed through a separate ("original")
 // wallet that never sees the chain.
 type deriver struct {
+	mu    sync.Mutex
 	env   *walletenv.Env
 	cache map[[3]uint32]btcutil.Address
 }
 
-var derivers = map[int]*deriver{}
+var hangMu sync.Mutex
+
+// c16Watchdog bounds one recovery case (a normal one takes well under a second).
+const c16Watchdog = 90 * time.Second
+
+var (
+	derivers   = map[int]*deriver{}
+	deriversMu sync.Mutex
+)
 
 func getDeriver(seed int) (*deriver, error) {
+	deriversMu.Lock()
+	defer deriversMu.Unlock()
 	if d, ok := derivers[seed]; ok {
 		return d, nil
 	}
@@ -132,6 +145,8 @@ func getDeriver(seed int) (*deriver, error) {
 }
 
 func (d *deriver) addr(k [3]uint32) (btcutil.Address, error) {
+	d.mu.Lock()
+	defer d.mu.Unlock()
 	if a, ok := d.cache[k]; ok {
 		return a, nil
 	}
@@ -330,8 +345,12 @@ func c16Recovery(in c16In) (c16Obs, []string, string, error) {
 	obs.Balance = int64(bal)
 	obs.Synced = w.Manager.SyncedTo().Height
 
-	// harness' own ledger of what it paid (from the first scanned block on)
-	scanFrom := obs.BdayUsed
+	// harness' own ledger of what it paid, from the first block that may pay
+	// the wallet: the explicit birthday block, or - when the birthday block is
+	// located by the wallet - every block (the generator pays only in blocks
+	// stamped later than birthday + 2h, so a search result that skips one of
+	// them shows up as a missed payment)
+	scanFrom := c16ExpectFrom(in)
 	var outs []*walletOut
 	byOp := map[[2]int64]*walletOut{}
 	maxPaid := map[[2]uint32]int64{}
@@ -594,6 +613,15 @@ func c16Birthday(in c16In) (c16Obs, []string, []string, error) {
 		tags = append(tags, "result_inner")
 	}
 	return obs, bad, tags, nil
+}
+
+// c16ExpectFrom is the height of the first block whose payments the property
+// expects to be recovered.
+func c16ExpectFrom(in c16In) int32 {
+	if in.Bday < 0 {
+		return 0
+	}
+	return in.Bday
 }
 
 // c16WithinLookahead decides the property's hypothesis on the input itself:
@@ -955,15 +983,41 @@ func c16GenBirthday(r *gen.R) c16In {
 func main() {
 	core.Main("c16", nil, func(c *core.Common, out *core.Emitter) error {
 		defer closeDerivers()
-		runOne := func(in c16In, tags []string) error {
+		compute := func(in c16In, tags []string) (*c16Case, error) {
 			switch in.Kind {
 			case "recovery":
-				obs, bad, site, err := c16Recovery(in)
+				// watchdog: a recovery that does not come back is reported as
+				// such (the goroutine cannot be stopped, so the run ends here)
+				type res struct {
+					obs  c16Obs
+					bad  []string
+					site string
+					err  error
+				}
+				ch := make(chan res, 1)
+				go func() {
+					obs, bad, site, err := c16Recovery(in)
+					ch <- res{obs, bad, site, err}
+				}()
+				var rr res
+				select {
+				case rr = <-ch:
+				case <-time.After(c16Watchdog):
+					hangMu.Lock()
+					// nothing has been emitted yet in a generated run (results
+					// are emitted in order at the end): write the case directly
+					b, _ := json.Marshal(c16Case{In: in, Obs: c16Obs{Err: "recovery did not return", Next: []uint32{}, Probes: [][5]int64{},
+						Recorded: []int32{}, Unspent: [][3]int64{}}, Oracle: []string{"recovery_does_not_terminate"},
+						Tags: append(tags, "watchdog"), Site: "recovery"})
+					os.Stdout.Write(append(b, '\n'))
+					os.Exit(0)
+				}
+				obs, bad, site, err := rr.obs, rr.bad, rr.site, rr.err
 				if err != nil {
-					return err
+					return nil, err
 				}
 				oracle := []string{}
-				violating := !c16WithinLookahead(in, obs.BdayUsed)
+				violating := !c16WithinLookahead(in, c16ExpectFrom(in))
 				if violating {
 					tags = append(tags, "violates_lookahead")
 				} else {
@@ -976,15 +1030,54 @@ func main() {
 				} else if len(bad) > 0 {
 					tags = append(tags, "violation_caused_a_miss")
 				}
-				out.Emit(c16Case{In: in, Obs: obs, Oracle: oracle, Tags: tags, Site: site})
+				return &c16Case{In: in, Obs: obs, Oracle: oracle, Tags: tags, Site: site}, nil
 			case "birthday":
 				obs, bad, t2, err := c16Birthday(in)
 				if err != nil {
-					return err
+					return nil, err
 				}
-				out.Emit(c16Case{In: in, Obs: obs, Oracle: append([]string{}, bad...), Tags: append(tags, t2...), Site: "locateBirthdayBlock"})
+				return &c16Case{In: in, Obs: obs, Oracle: append([]string{}, bad...), Tags: append(tags, t2...), Site: "locateBirthdayBlock"}, nil
 			default:
-				return fmt.Errorf("unknown kind %q", in.Kind)
+				return nil, fmt.Errorf("unknown kind %q", in.Kind)
+			}
+		}
+		runOne := func(in c16In, tags []string) error {
+			cs, err := compute(in, tags)
+			if err != nil {
+				return err
+			}
+			out.Emit(cs)
+			return nil
+		}
+		// runAll computes the cases on a few workers and emits them in order
+		type job struct {
+			in   c16In
+			tags []string
+		}
+		runAll := func(jobs []job) error {
+			res := make([]*c16Case, len(jobs))
+			errs := make([]error, len(jobs))
+			var wg sync.WaitGroup
+			next := make(chan int, len(jobs))
+			for i := range jobs {
+				next <- i
+			}
+			close(next)
+			for w := 0; w < 6; w++ {
+				wg.Add(1)
+				go func() {
+					defer wg.Done()
+					for i := range next {
+						res[i], errs[i] = compute(jobs[i].in, jobs[i].tags)
+					}
+				}()
+			}
+			wg.Wait()
+			for i := range jobs {
+				if errs[i] != nil {
+					return errs[i]
+				}
+				out.Emit(res[i])
 			}
 			return nil
 		}
@@ -1000,12 +1093,10 @@ func main() {
 			})
 		}
 		r := gen.New(c.Seed, 16)
-		nrec := c.N
-		for i := 0; i < nrec; i++ {
+		var jobs []job
+		for i := 0; i < c.N; i++ {
 			in, tags := c16GenRecovery(r, i%4 == 3)
-			if err := runOne(in, tags); err != nil {
-				return err
-			}
+			jobs = append(jobs, job{in, tags})
 		}
 		rb := gen.New(c.Seed, 1016)
 		for i := 0; i < 3*c.N; i++ {
@@ -1016,9 +1107,10 @@ func main() {
 				in.BirthdayTs += c16Margin48
 				tags = append(tags, "birthday_via_wallet")
 			}
-			if err := runOne(in, tags); err != nil {
-				return err
-			}
+			jobs = append(jobs, job{in, tags})
+		}
+		if err := runAll(jobs); err != nil {
+			return err
 		}
 		return nil
 	})
